@@ -562,6 +562,16 @@ def gen_event_sync_scenario(seed: int, case_no: int) -> dict:
             "seed": seed, "case_no": case_no, "T": T, "epoch": epoch, "kinds": kinds}
 
 
+def relabel_ranks(case: dict, salt: int = 0) -> dict:
+    """give the ranks of a case arbitrary ids (a subset of a job, listed in arbitrary order) instead of 0..n-1"""
+    rng = random.Random(case.get("seed", 0) * 7_000_003 + case.get("case_no", 0) * 31 + salt)
+    old = list(case["ranks"].keys())
+    new = rng.sample(range(0, 10), len(old))
+    case["ranks"] = {n: case["ranks"][o] for o, n in zip(old, new)}
+    case["rank_ids_relabelled"] = True
+    return case
+
+
 def write_case(case: dict, d: str) -> Dict[int, str]:
     """Write the rank files of a case into directory d; returns rank -> path."""
     os.makedirs(d, exist_ok=True)
